@@ -27,6 +27,7 @@ import logging
 import random
 from typing import Any
 
+from hv.gen import argnames
 from hv.gen.programs import World, run_steps
 from hv.loop import run_virtual
 from hv.record import Recorder
@@ -348,6 +349,7 @@ def run(R: Recorder, tier: str, seed: int, shard: int, nshards: int) -> None:
     if shard == 0:
         detached(R)
         factories(R)
+        argnames.check_ctx_entry_points(R, "spawn-factory", "spawn")
     rng_cases = random.Random(f"C06/{seed}")
     rng = random.Random(f"C06/{seed}/{shard}")
     for i, case in enumerate(cases(tier, rng_cases)):
@@ -361,6 +363,9 @@ def replay(R: Recorder, rec: dict[str, Any]) -> None:
         return
     if "factory" in rec:
         factories(R)
+        return
+    if "ctx_entry" in rec:
+        argnames.check_ctx_entry_points(R, "spawn-factory", "spawn")
         return
     ch = Chooser(rec["choices"], "first")
     W, status, value, sched = run_once(rec["case"], ch)
